@@ -158,6 +158,8 @@ class Batch:
 
     def valid(self, rec):
         v = rec.get("val")
+        if v is None and rec.get("res") == "err":
+            v = ["err", rec.get("errkind"), rec.get("errmsg")]     # the error text is an observable too (C03)
         return self.intern(v) if v is not None else 0
 
     # ---------------------------------------------------------------- reference system
